@@ -558,6 +558,8 @@ fn handle_out_delete<'a>(
     let rt = Runtime::new()?;
     let _guard =
         rt.block_on(core::server::LockServer::new(config.server.lock.clone()).acquire())?;
+    #[cfg(pnordahl_monorail_verif)]
+    crate::verif::point("after_lock_out_delete");
     let i = app::out::OutDeleteInput::try_from(matches)?;
     let res = app::out::out_delete(&config.out_dir, &i);
     write_result(&res, output_options)?;
@@ -586,6 +588,8 @@ fn handle_run<'a>(
     let rt = Runtime::new()?;
     let _guard =
         rt.block_on(core::server::LockServer::new(config.server.lock.clone()).acquire())?;
+    #[cfg(pnordahl_monorail_verif)]
+    crate::verif::point("after_lock_run");
     let i = app::run::HandleRunInput::try_from(matches).unwrap();
     let invocation = env::args().skip(1).collect::<Vec<_>>().join(" ");
     let o = rt.block_on(app::run::handle_run(config, &i, &invocation, work_path))?;
@@ -615,6 +619,8 @@ fn handle_checkpoint_update<'a>(
     let rt = Runtime::new()?;
     let _guard =
         rt.block_on(core::server::LockServer::new(config.server.lock.clone()).acquire())?;
+    #[cfg(pnordahl_monorail_verif)]
+    crate::verif::point("after_lock_checkpoint_update");
     let i = app::checkpoint::CheckpointUpdateInput::try_from(matches)?;
     let res = rt.block_on(app::checkpoint::handle_checkpoint_update(
         config, &i, work_path,
@@ -642,6 +648,8 @@ fn handle_checkpoint_delete<'a>(
     let rt = Runtime::new()?;
     let _guard =
         rt.block_on(core::server::LockServer::new(config.server.lock.clone()).acquire())?;
+    #[cfg(pnordahl_monorail_verif)]
+    crate::verif::point("after_lock_checkpoint_delete");
     let res = rt.block_on(app::checkpoint::handle_checkpoint_delete(config, work_path));
     write_result(&res, output_options)?;
     Ok(get_code(res.is_err()))
